@@ -387,6 +387,16 @@ def selftest():
             return evs[:i] + evs[i + 1:]
 
         ok = all([variant('param', e_param), variant('allow', e_allow), variant('kind', e_kind), variant('dropped-op', e_drop)])
+        # the verif access hooks must report on the unchanged tree (lock-discipline binding is live)
+        g2 = vlib.stage_gen(run, dict(gen_bfs('T', 1, extra='LockExtra'), name='st-lock'))
+        wd2 = run.sub('st2')
+        c2 = vlib.shard_cases(g2, wd2, 1)[0]
+        t2 = os.path.join(wd2, 'trace-lock.ndjson')
+        rc, stats, err = vlib.run_harness(binp, c2, t2, nodedup=True)
+        mm2, n2 = vlib.validate_shard(run, wd2, 'Trace_LockDisc', t2, ['C06'])
+        hooks_ok = rc == 0 and not mm2 and not run.notes and n2 > 10
+        print('selftest: access hooks      -> %d calls reported, %s' % (n2, 'accepted, no drift' if hooks_ok else '** drift or disagreement **'))
+        ok = ok and hooks_ok
         print('selftest: good trace accepted (%d events); binding %s' % (n, 'LIVE' if ok else 'BROKEN'))
         return 0 if ok else 2
     finally:
